@@ -18,6 +18,7 @@ import Basyx.Gen.JsonTable
 import Basyx.Gen.XmlTable
 import Basyx.Gen.Schemas
 import Basyx.Gen.StrCons
+import Basyx.Gen.Dispatch
 namespace Basyx.C05
 open Basyx.Codec Basyx.Gen.Schemas
 
@@ -189,5 +190,21 @@ def xmlClasses : List ClassTable :=
 
 /-- **XML, element order / names / occurrence / enumerations, both directions.** -/
 theorem c05_xml_tables_match_schema_partial : xmlClasses.all xmlClassOk = true := by decide
+
+/-! ### Emission order inside `levelType`
+
+`xmlClassOk` checks, class by class, that the members the writer emits form a subsequence of the `xs:sequence`.  The children
+of `<levelType>` are not members of a class: the writer emits one child per entry of the dict `IEC61360_LEVEL_TYPES` of
+`adapter/_generic.py`, in the dict's order (extracted: `Gen.Dispatch.xmlLevelTypeLoop`); the JSON form is an object and has no
+order. -/
+
+/-- (re-checked against the source and the XSD on every run) the wire names of `IEC61360_LEVEL_TYPES`, in the order the dict
+    is written in the source, are exactly the `xs:sequence` of the XSD's `levelType` group: min, nom, typ, max -/
+theorem c05_level_type_sequence :
+    Gen.Dispatch.xmlLevelTypeLoop = "dictItems" ∧
+    ((Gen.Xml.enumTables.lookup "IEC61360_LEVEL_TYPES").getD []).map (·.2) =
+      ((xsdGroups.lookup "levelType").getD []).map (·.name) ∧
+    ((Gen.Json.enumTables.lookup "IEC61360_LEVEL_TYPES").getD []).map (·.2) =
+      ((xsdGroups.lookup "levelType").getD []).map (·.name) := by decide
 
 end Basyx.C05
